@@ -175,7 +175,8 @@ PROPS["C19"] = {
 
 PROPS["C09"] = {
     "title": "A truncated result stream decodes to a clean prefix",
-    "units": [{"name": "truncation", "pkg": "lib", "run": "^TestC09"}],
+    "units": [{"name": "truncation", "pkg": "lib", "run": "^TestC09"},
+              {"name": "encodecmd", "pkg": "main", "run": "^TestC09", "shards_quick": 2, "shards_thorough": 8}],
     "rule": "rapid draws streams of 1..25 heterogeneous results (C07 generator, one in eight with bodies up to 100 KiB), "
             "a recording writer notes the byte offset after each Encode call; gob and JSON streams are cut at EVERY byte "
             "offset (streams above 16 KiB: every offset within 64 bytes of a record boundary plus 600 drawn interior "
